@@ -1441,7 +1441,7 @@ func barExcludesStdout(c *Ctx, an *Anchors, w, bar ssa.Value) (bool, string) {
 // checks that the line holds nothing else before it reports success.
 func parserStrictRule(c *Ctx, r *Report, rule string) {
 	un := c.Fn("UnmarshalOrdered")
-	pv := c.Fn("parseValue")
+	pv := c.parserFn()
 	if un == nil || pv == nil {
 		r.Undecided(rule, "parser", "-", "parser entry / recursive parser not found")
 		return
